@@ -172,7 +172,22 @@ func genC17Type(t *rapid.T, useTag bool) *vh.TSpec {
 		x := X[rapid.IntRange(0, 2).Draw(t, "x")]
 		var ft *vh.TSpec
 		opt := ""
-		switch rapid.IntRange(0, 8).Draw(t, "pos") {
+		switch rapid.IntRange(0, 11).Draw(t, "pos") {
+		case 9:
+			// a named type without registration under a kind-level tag: the codec is derived,
+			// and must be cached under its own (type, tag) key only
+			ft = vh.NamedT("NInt")
+			if rapid.Bool().Draw(t, "nptr") {
+				ft = vh.PtrOf(ft)
+			}
+			opt = "flat"
+		case 10:
+			ft = vh.NamedT("NInt")
+			if rapid.Bool().Draw(t, "nptr2") {
+				ft = vh.PtrOf(ft)
+			}
+		case 11:
+			ft = vh.SliceOf(vh.NamedT("NInt"))
 		case 0:
 			ft = x
 		case 1:
